@@ -6,7 +6,6 @@ Probabilities are short decimals, so that `fractions.Fraction(str(p))` is the ex
 value the model computes with (the float ProbLog uses differs by < 1e-16)."""
 
 PROBS = ["0.1", "0.2", "0.25", "0.3", "0.4", "0.5", "0.6", "0.7", "0.75", "0.8", "0.9"]
-AD_PROBS = ["0.1", "0.2", "0.25", "0.3", "0.4", "0.5"]
 
 
 def gen_program(rng, big=False):
